@@ -361,6 +361,11 @@ func (c *Ctx) Response(rich bool) *Response {
 			pos = "component-header"
 		}
 		h := &Header{Required: rapid.Bool().Draw(t, "rh_required"), Schema: c.ResponseHeaderSchema(pos)}
+		// (the legacy X-RateLimit-* pattern: still required, marked deprecated)
+		if rapid.IntRange(0, 5).Draw(t, "rh_deprecated") == 0 {
+			h.Deprecated = true
+			c.Tag("rheader:deprecated")
+		}
 		if asComponent {
 			cs := c.comps()
 			if cs.Headers == nil {
@@ -513,6 +518,12 @@ func (c *Ctx) RouterDoc(o RouterOpts) *Doc {
 	for _, tp := range c.Templates(o.MaxN, o.MaxDepth) {
 		pi := &PathItem{}
 		d.Paths[tp.String()] = pi
+		// (a path item may be declared before any of its operations exists: /reports: {})
+		if rapid.IntRange(0, 9).Draw(t, "path_item_without_operations") == 0 && len(d.Paths) > 1 {
+			pi.Description = "reserved"
+			c.Tag("path-item:no-operations")
+			continue
+		}
 		// (an upload host of its own, say: it does not move the path item under another base path)
 		if rapid.IntRange(0, 7).Draw(t, "path_item_servers") == 0 {
 			pi.Servers = []*Server{{URL: rapid.SampledFrom([]string{"https://uploads.example.com/v1", "https://files.example.com", "/files/v2"}).Draw(t, "path_item_server_url")}}
@@ -829,8 +840,17 @@ func (c *Ctx) ParamsDoc(withPathVars bool, withBodies ...bool) *Doc {
 			}
 			break // the first variable only: everything before it is constant
 		}
+		realUsed := map[string]bool{}
 		mkParam := func(in string, level string) *Parameter {
 			if in == "header" {
+				// (header parameters real documents declare, next to their own X- headers)
+				if len(c.RealisticHeaders) > 0 && rapid.IntRange(0, 5).Draw(t, "realistic_header_param") == 0 {
+					if h := rapid.SampledFrom(c.RealisticHeaders).Draw(t, "realistic_header_name"); !realUsed[h] {
+						realUsed[h] = true
+						c.Tag("param:realistic-header-name")
+						return &Parameter{Name: h, In: "header", Required: rapid.Bool().Draw(t, "param_required"), Schema: &Schema{Type: "string"}}
+					}
+				}
 				return c.Param(in, c.SafeName("X-H", "pname"), rapid.Bool().Draw(t, "param_required"))
 			}
 			return c.Param(in, c.QueryName("q", "pname"), rapid.Bool().Draw(t, "param_required"))
@@ -1360,4 +1380,32 @@ func DecorateForeign(t *rapid.T, raw []byte) ([]byte, int) {
 		return raw, 0
 	}
 	return out, n
+}
+
+// DecorateOps adds the annotations large API descriptions carry on operations and that
+// change nothing about how an operation is served: tags (several per operation, shared
+// between operations), `deprecated: true`, a summary.
+func DecorateOps(t *rapid.T, d *Doc) int {
+	if d == nil || len(d.Paths) == 0 || rapid.Bool().Draw(t, "decorate_ops") {
+		return 0
+	}
+	pool := []string{"accounts", "billing", "Admin API", "internal", "v2", "reports"}
+	n := 0
+	for _, tpl := range SortedKeys(d.Paths) {
+		for _, mo := range d.Paths[tpl].Ops() {
+			if k := rapid.IntRange(0, 3).Draw(t, "op_ntags"); k > 0 {
+				mo.Op.Tags = rapid.SliceOfNDistinct(rapid.SampledFrom(pool), k, k, rapid.ID[string]).Draw(t, "op_tags")
+				n++
+			}
+			if rapid.IntRange(0, 5).Draw(t, "op_deprecated") == 0 {
+				mo.Op.Deprecated = true
+				n++
+			}
+			if rapid.IntRange(0, 5).Draw(t, "op_summary") == 0 {
+				mo.Op.Summary = "Does the thing; see \"docs\" & <notes>"
+				n++
+			}
+		}
+	}
+	return n
 }
